@@ -39,6 +39,9 @@ struct ClockedAuthz {
     base: Instant,
     now_s: AtomicU64,
     asked: Mutex<Vec<Identity>>,
+    /// number of calls in which the server passed a timestamp that is not "about now" (the adapter
+    /// replaces that timestamp by model time, so a stale/future one would otherwise go unnoticed)
+    odd_time: AtomicU64,
 }
 impl ClockedAuthz {
     fn at(&self) -> Instant {
@@ -48,7 +51,11 @@ impl ClockedAuthz {
 impl SnapTunAuthorization for ClockedAuthz {
     /// the identity the authorisation was granted for (= the session a payload is attributed to)
     type SessionData = Identity;
-    fn is_authorized(&self, _now: Instant, identity: &Identity) -> Option<Arc<Identity>> {
+    fn is_authorized(&self, now: Instant, identity: &Identity) -> Option<Arc<Identity>> {
+        let real = Instant::now();
+        if now > real || real.duration_since(now) > Duration::from_secs(2) {
+            self.odd_time.fetch_add(1, Ordering::SeqCst);
+        }
         self.asked.lock().unwrap().push(*identity);
         <IdentityRegistry as SnapTunAuthorization>::is_authorized(&self.reg, self.at(), identity).map(|_| Arc::new(*identity))
     }
@@ -88,7 +95,7 @@ struct World {
 impl World {
     fn new(ids: &[String], addrs: &[String]) -> World {
         let reg = Arc::new(IdentityRegistry::new());
-        let authz = Arc::new(ClockedAuthz { reg: reg.clone(), base: Instant::now() + Duration::from_secs(1000), now_s: AtomicU64::new(0), asked: Mutex::new(vec![]) });
+        let authz = Arc::new(ClockedAuthz { reg: reg.clone(), base: Instant::now() + Duration::from_secs(1000), now_s: AtomicU64::new(0), asked: Mutex::new(vec![]), odd_time: AtomicU64::new(0) });
         let server_secret = x25519::StaticSecret::from([0xA5u8; 32]);
         let server_pub = x25519::PublicKey::from(&server_secret);
         let rl = Arc::new(RateLimiter::new(&server_pub, 1_000_000));
@@ -147,7 +154,8 @@ impl World {
             .iter()
             .map(|(id, exp)| json!([self.id_name(id), exp.saturating_duration_since(self.authz.base).as_secs()]))
             .collect();
-        json!({"auth": auth, "assoc": assoc_j, "sess": sess_j, "now": self.authz.now_s.load(Ordering::SeqCst)})
+        json!({"auth": auth, "assoc": assoc_j, "sess": sess_j, "now": self.authz.now_s.load(Ordering::SeqCst),
+               "odd_time": self.authz.odd_time.load(Ordering::SeqCst)})
     }
 
     /// execute one model action on the real objects; returns the observed event (same shape as the spec's `ev`)
